@@ -45,6 +45,27 @@ theorem failure_counts (bad : Int) : agent_healthCount true bad = bad + 1 := by
 theorem threshold_clamped (t : Int) : 1 ≤ agent_healthClamp t ∧ (1 ≤ t → agent_healthClamp t = t) := by
   exact ⟨healthClamp_ge t, healthClamp_id t⟩
 
+/-- with no failed check on the count the exit test is false for every configured threshold -/
+theorem exit_zero (threshold : Int) : agent_healthExit 0 (agent_healthClamp threshold) = false := by
+  have h := (threshold_clamped threshold).1
+  simp [agent_healthExit]
+  omega
+
+theorem healthy_never_exits_from (threshold : Int) (k : Nat) (hist : List Bool) (h : ∀ b ∈ hist, b = true) :
+    monitorFrom threshold 0 k hist = none := by
+  induction hist generalizing k with
+  | nil => rfl
+  | cons b t ih =>
+    have hb : b = true := h b (by simp)
+    subst hb
+    simp only [monitorFrom, Bool.not_true, success_resets, exit_zero]
+    exact ih (k + 1) (fun b hb => h b (by simp [hb]))
+
+/-- A backend whose health checks all pass is never abandoned: for every threshold (also 0 or negative, which the clamp
+    turns into 1) and every length of history the monitor does not make the agent exit. -/
+theorem healthy_never_exits (threshold : Int) (hist : List Bool) (h : ∀ b ∈ hist, b = true) :
+    monitor threshold hist = none := healthy_never_exits_from threshold 0 hist h
+
 /-- Graceful shutdown: once the signal has been handled no new pending-list poll starts —
     the one in flight may return (and its IDs are still forwarded), then the loop stops. -/
 theorem graceful_no_new_polls (cfg : Cfg) (s s' : St) (e : Lifecycle.Ev) (hc : s.cancelled = true) (h : step cfg s e = some s') :
